@@ -21,6 +21,7 @@ From Grex Require Import Proofs.Lang Proofs.Spec Proofs.FoldTables Proofs.Engine
 From Grex Require Import Engine.Syntax Engine.Parse Engine.Sem.
 From Grex Require Import Proofs.PrintParseNum Proofs.PrintParseDefs Proofs.PrintParseXTok
   Proofs.PropsGlueE2E.
+From Grex Require Proofs.MergeSound Proofs.HopcroftSym Proofs.HopcroftAny.
 From GrexGen Require Import GrexTables OracleTables.
 
 (* (a) every (normalised) test case that satisfies its own specification is accepted;
@@ -163,6 +164,102 @@ Theorem C01_build_parse_sound_ci_verbose : forall isd is_ws c db sc ws s,
          L_rast lit_ci cls_engine r t.
 Proof. exact build_sound_ci_v. Qed.
 
+(* (g) SOUNDNESS WITH MERGED (WIDENED) TRIE EDGES.  no_merge is replaced by the executable
+       certificate MergeSound.merge_cert: on the pipeline's own trie t, partition p and
+       quotient d' it checks that finality is uniform inside every block, that every symbol
+       (characters, count) of every edge of t is covered by an edge that recreate_graph copies
+       from the representative of the source block into the block of the target (qcoverb),
+       and that a longest-path rank decreases along every edge of d' (acyclicb).  With the
+       certificate every specification string, hence every test case, is accepted, for every
+       self-check outcome. *)
+Theorem C01_spec_sound_with_merge_cert : forall (lit cls : cp -> cp -> Prop) c db sc ws e,
+  ws <> [] ->
+  oracle_ok db (normalise c db ws) ->
+  MergeSound.merge_cert (grapheme_clusters c db (normalise c db ws)) = true ->
+  Pipeline.final_expr c (grapheme_clusters c db (normalise c db ws)) sc = Some e ->
+  forall u, Spec lit cls c db ws u -> (u <> [] \/ K4 (normalise c db ws) = false) ->
+    L_expr lit cls e u.
+Proof. exact MergeSound.final_expr_sound_cert. Qed.
+
+Theorem C01_sound_with_merge_cert : forall (lit cls : cp -> cp -> Prop) c db sc ws e t,
+  ws <> [] ->
+  oracle_ok db (normalise c db ws) ->
+  MergeSound.merge_cert (grapheme_clusters c db (normalise c db ws)) = true ->
+  Pipeline.final_expr c (grapheme_clusters c db (normalise c db ws)) sc = Some e ->
+  In t ws ->
+  let t' := if f_ci c then lower' db t else t in
+  (t' <> [] \/ K4 (normalise c db ws) = false) ->
+  Spec_str lit cls c t' t' ->
+  L_expr lit cls e t'.
+Proof. exact MergeSound.sound_expr_cert. Qed.
+
+(* (h) NO CERTIFICATE when the trie is symbol-deterministic.  HopcroftSym.merge_detb runs
+       sym_detb on the trie: no state has two out-edges with the same characters and
+       overlapping ranges that lead to different states.  Then Hopcroft as implemented
+       (containment matching, smaller-half work-list rule) returns a partition whose
+       representatives cover their blocks, and the quotient is acyclic. *)
+Theorem C01_spec_sound_symdet : forall (lit cls : cp -> cp -> Prop) c db sc ws e,
+  ws <> [] ->
+  oracle_ok db (normalise c db ws) ->
+  HopcroftSym.merge_detb (grapheme_clusters c db (normalise c db ws)) = true ->
+  Pipeline.final_expr c (grapheme_clusters c db (normalise c db ws)) sc = Some e ->
+  forall u, Spec lit cls c db ws u -> (u <> [] \/ K4 (normalise c db ws) = false) ->
+    L_expr lit cls e u.
+Proof. exact HopcroftSym.final_expr_sound_symdet. Qed.
+
+Theorem C01_sound_symdet : forall (lit cls : cp -> cp -> Prop) c db sc ws e t,
+  ws <> [] ->
+  oracle_ok db (normalise c db ws) ->
+  HopcroftSym.merge_detb (grapheme_clusters c db (normalise c db ws)) = true ->
+  Pipeline.final_expr c (grapheme_clusters c db (normalise c db ws)) sc = Some e ->
+  In t ws ->
+  let t' := if f_ci c then lower' db t else t in
+  (t' <> [] \/ K4 (normalise c db ws) = false) ->
+  Spec_str lit cls c t' t' ->
+  L_expr lit cls e t'.
+Proof. exact HopcroftSym.sound_expr_symdet. Qed.
+
+(* (i) UNCONDITIONAL: minimize pushes both halves of every split block on its work-list, and
+       then the Hopcroft partition of every trie the pipeline builds (merged edges, symbol-
+       deterministic or not) is stable for every alphabet symbol; the representatives cover
+       their blocks and the quotient is acyclic.  No no_merge, no certificate, any self-check
+       outcome: every specification string, hence every test case, is accepted. *)
+Theorem C01_spec_sound_with_merge : forall (lit cls : cp -> cp -> Prop) c db sc ws e,
+  ws <> [] ->
+  oracle_ok db (normalise c db ws) ->
+  Pipeline.final_expr c (grapheme_clusters c db (normalise c db ws)) sc = Some e ->
+  forall u, Spec lit cls c db ws u -> (u <> [] \/ K4 (normalise c db ws) = false) ->
+    L_expr lit cls e u.
+Proof. exact HopcroftAny.final_expr_sound_with_merge. Qed.
+
+Theorem C01_sound_with_merge : forall (lit cls : cp -> cp -> Prop) c db sc ws e t,
+  ws <> [] ->
+  oracle_ok db (normalise c db ws) ->
+  Pipeline.final_expr c (grapheme_clusters c db (normalise c db ws)) sc = Some e ->
+  In t ws ->
+  let t' := if f_ci c then lower' db t else t in
+  (t' <> [] \/ K4 (normalise c db ws) = false) ->
+  Spec_str lit cls c t' t' ->
+  L_expr lit cls e t'.
+Proof. exact HopcroftAny.sound_expr_with_merge. Qed.
+
+(* non-vacuity of (g): "ab" "abbb" "cb" "cbb" "cbbb" with repetition conversion merges an
+   edge (c -b{1,3}->) and passes the certificate; "xbba" "xbcc" "ybba" "ybbcc" "ybcc" (the
+   witness of the former smaller-half defect of minimize) passes it too although its trie is
+   not symbol-deterministic *)
+Example C01_merge_cert_example :
+  no_merge (grapheme_clusters MergeSound.Sanity.c_rep []
+              (normalise MergeSound.Sanity.c_rep [] MergeSound.Sanity.ws1)) = false
+  /\ MergeSound.merge_cert (grapheme_clusters MergeSound.Sanity.c_rep []
+              (normalise MergeSound.Sanity.c_rep [] MergeSound.Sanity.ws1)) = true
+  /\ HopcroftSym.merge_detb (grapheme_clusters MergeSound.Sanity.c_rep []
+              (normalise MergeSound.Sanity.c_rep [] MergeSound.Sanity.ws1)) = true
+  /\ MergeSound.merge_cert (grapheme_clusters MergeSound.Sanity.c_rep []
+              (normalise MergeSound.Sanity.c_rep [] MergeSound.Sanity.ws2)) = true
+  /\ HopcroftSym.merge_detb (grapheme_clusters MergeSound.Sanity.c_rep []
+              (normalise MergeSound.Sanity.c_rep [] MergeSound.Sanity.ws2)) = false.
+Proof. vm_compute. repeat split. Qed.
+
 Print Assumptions C01_sound_expr.
 Print Assumptions C01_self_accept.
 Print Assumptions C01_self_accept_ci.
@@ -175,3 +272,9 @@ Print Assumptions C01_build_parse_sound.
 Print Assumptions C01_build_parse_sound_verbose.
 Print Assumptions C01_build_parse_sound_ci.
 Print Assumptions C01_build_parse_sound_ci_verbose.
+Print Assumptions C01_spec_sound_with_merge_cert.
+Print Assumptions C01_sound_with_merge_cert.
+Print Assumptions C01_spec_sound_symdet.
+Print Assumptions C01_sound_symdet.
+Print Assumptions C01_spec_sound_with_merge.
+Print Assumptions C01_sound_with_merge.
